@@ -107,7 +107,10 @@ pub fn build_doc(recipe: &[i64]) -> EditState {
     let w = g(0, 8).clamp(1, 40) as i32;
     let h = g(1, 4).clamp(1, 20) as i32;
     let mut rng = Rng::new(g(2, 1) as u64);
-    let extra = g(3, 0).clamp(0, 2) as usize;
+    // recipe[3]: number of extra layers, plus 10 for "rich" cell attributes (bright backgrounds, blink, bold: what the
+    // iCE / blink mode switch rewrites); plain recipes keep producing exactly the documents they always did
+    let rich = g(3, 0) >= 10;
+    let extra = (g(3, 0) % 10).clamp(0, 2) as usize;
     let mut buf = Buffer::new((w, h));
     // the low bits of the content seed choose the font mode, so that font operations are reachable
     buf.font_mode = match g(2, 1) % 4 {
@@ -116,7 +119,7 @@ pub fn build_doc(recipe: &[i64]) -> EditState {
         2 => icy_engine::FontMode::Single,
         _ => icy_engine::FontMode::FixedSize,
     };
-    fill_layer(&mut rng, &mut buf.layers[0]);
+    fill_layer(&mut rng, &mut buf.layers[0], rich);
     for i in 0..extra {
         let b = 4 + i * 5;
         let lw = g(b, 4).clamp(1, 24) as i32;
@@ -125,7 +128,7 @@ pub fn build_doc(recipe: &[i64]) -> EditState {
         let flags = g(b + 4, 0);
         l.properties.has_alpha_channel = flags & 1 != 0;
         l.set_offset((g(b + 2, 0).clamp(-6, 12) as i32, g(b + 3, 0).clamp(-6, 12) as i32));
-        fill_layer(&mut rng, &mut l);
+        fill_layer(&mut rng, &mut l, rich);
         l.properties.is_visible = flags & 2 == 0;
         l.properties.is_locked = flags & 4 != 0;
         buf.layers.push(l);
@@ -133,7 +136,7 @@ pub fn build_doc(recipe: &[i64]) -> EditState {
     EditState::from_buffer(buf)
 }
 
-fn fill_layer(rng: &mut Rng, l: &mut Layer) {
+fn fill_layer(rng: &mut Rng, l: &mut Layer, rich: bool) {
     let (w, h) = (l.get_width(), l.get_height());
     let n = (w * h / 2).max(1);
     for _ in 0..n {
@@ -142,6 +145,11 @@ fn fill_layer(rng: &mut Rng, l: &mut Layer) {
         let mut a = TextAttribute::default();
         a.set_foreground(rng.below(16) as u32);
         a.set_background(rng.below(8) as u32);
+        if rich {
+            a.set_background(rng.below(16) as u32);
+            a.set_is_blinking(rng.chance(1, 3));
+            a.set_is_bold(rng.chance(1, 3));
+        }
         l.set_char((x, y), AttributedChar::new((b'a' + rng.below(26) as u8) as char, a));
     }
 }
@@ -727,7 +735,8 @@ pub fn gen_edit(rng: &mut Rng, run: u64, thorough: bool) -> Trace {
         2 => 1,
         _ => 2,
     };
-    t.cfg.doc = vec![w, h, rng.range(1, 1_000_000), extra];
+    let rich = if rng.chance(1, 3) { 10 } else { 0 };
+    t.cfg.doc = vec![w, h, rng.range(1, 1_000_000), extra + rich];
     for _ in 0..extra {
         t.cfg.doc.extend([rng.range(1, 24), rng.range(1, 12), rng.range(-3, 8), rng.range(-3, 6), rng.range(0, 7)]);
     }
